@@ -48,14 +48,16 @@ func WithHistogramDataPointStatistics(values []float64) func(HistogramDataPoint)
 			// a persisted timer that received nothing in this interval
 			return
 		}
-		hdp.raw.Min = &values[0]
-		hdp.raw.Max = &values[len(values)-1]
-
+		// Work on copies: values is the aggregator's own slice (unsorted for gsd_histogram timers),
+		// which other backends read during the same flush.
+		min, max := values[0], values[0]
 		for _, v := range values {
 			*hdp.raw.Sum += v
-			*hdp.raw.Min = math.Min(*hdp.raw.Min, v)
-			*hdp.raw.Max = math.Max(*hdp.raw.Max, v)
+			min = math.Min(min, v)
+			max = math.Max(max, v)
 		}
+		hdp.raw.Min = &min
+		hdp.raw.Max = &max
 	}
 }
 
